@@ -1328,3 +1328,244 @@ class WindowGen(Gen):
              "proj": proj, "distinct": 0, "order": [], "limit": -1, "offset": 0}
         return make_case(cid, self.tables, Q(sql, m, [(n, e.t) for e, n in zip(base, names)] + list(zip(names[len(base):], wtypes))),
                          tags=[w["f"] for w in wins])
+
+
+# ---------------------------------------------------------------------------------------------
+# Second generation of targeted shapes: skewed packed join keys, HAVING + top-N over group keys,
+# non-equality correlated [NOT] EXISTS over duplicate outer rows, CTEs referenced from a subquery
+# and from the main query, chained set operations with mixed quantifiers, wide integer group keys.
+class Shapes2(OptShapes):
+    SHAPES = ["pjk_skew", "having_topn", "topn_offset", "corr_exists_noneq", "corr_exists_or", "cte_multi", "cte_semi", "setop_chain", "agg_wide"]
+
+    def case(self, cid):
+        r = self.rng
+        only = self.o.get("only_shapes")
+        shape = r.choice(only or self.SHAPES)
+        q, tables = getattr(self, "s2_" + shape)()
+        self.tables = tables
+        return make_case(cid, tables, q, tags=[shape])
+
+    def tab(self, name, cols, rows, nonnull=()):
+        return Table(name, cols, rows, nonnull)
+
+    # --- C03: two-column integer join keys with skewed ranges (packing modulus must cover BOTH sides) -----------
+    def s2_pjk_skew(self):
+        r = self.rng
+        big = r.choice([2, 3, 5, 9])
+        nl, nr = r.randint(1, 4), r.randint(2, 6)
+        L = [[r.randint(0, 3), r.choice([0, 1, big, big - 1, 2])] + [r.randint(0, 3)] for _ in range(nl)]
+        R = [[r.randint(0, 3), r.randint(0, 1), r.randint(0, 3)] for _ in range(nr)]
+        if r.random() < 0.5:
+            L, R = R, L
+        t0 = self.tab("t0", [("p0", "int"), ("q0", "int"), ("v0", "int")], L, ("p0", "q0", "v0"))
+        t1 = self.tab("t1", [("p1", "int"), ("q1", "int"), ("v1", "int")], R, ("p1", "q1", "v1"))
+        a0, a1 = self.fresh("x"), self.fresh("x")
+        c0, c1 = self.cols(t0, a0), self.cols(t1, a1)
+        sc = Scope(c0 + c1)
+        on1, on2 = self.cmp(sc.ref(0, 0), "=", sc.ref(0, 3)), self.cmp(sc.ref(0, 1), "=", sc.ref(0, 4))
+        on = E(f"({on1.sql} AND {on2.sql})", {"k": "and", "a": on1.m, "b": on2.m}, "bool")
+        fsql = f"t0 AS {a0} INNER JOIN t1 AS {a1} ON {on.sql}"
+        fm = {"k": "join", "kind": "inner", "l": {"k": "table", "name": "t0"}, "r": {"k": "table", "name": "t1"}, "on": on.m, "ln": 3, "rn": 3}
+        proj = [sc.ref(0, 0), sc.ref(0, 1), sc.ref(0, 2), sc.ref(0, 5)]
+        return self.sel(fsql, fm, proj), [t0, t1]
+
+    # --- C09: GROUP BY + HAVING + ORDER BY group keys + LIMIT [OFFSET] ----------------------------------------------
+    def _fact(self, n=None):
+        r = self.rng
+        n = r.randint(3, 9) if n is None else n
+        rows = [[r.randint(0, 4), r.choice([0, 1, 2, 5, None]), r.randint(0, 2)] for _ in range(n)]
+        return self.tab("t0", [("g0", "int"), ("v0", "int"), ("h0", "int")], rows, ("g0", "h0"))
+
+    def s2_having_topn(self):
+        r = self.rng
+        t0 = self._fact()
+        a0 = self.fresh("x")
+        sc = Scope(self.cols(t0, a0))
+        keys = [sc.ref(0, 0)] + ([sc.ref(0, 2)] if r.random() < 0.4 else [])
+        f = r.choice(["sum", "count", "max", "min"])
+        aggs = [self.agg_e(f, sc.ref(0, 1)), self.agg_e("count*", None)]
+        g = self.gref(keys, aggs)
+        having = self.cmp(g.ref(0, len(keys) + r.randint(0, 1)), r.choice([">", ">=", "<", "<>"]), Lit("int", r.randint(0, 3)))
+        proj = [g.ref(0, i) for i in range(len(keys) + 2)]
+        order = [(i, r.randint(0, 1)) for i in range(len(keys))]
+        q = self.sel(f"t0 AS {a0}", {"k": "table", "name": "t0"}, proj, group=(keys, aggs, having if r.random() < 0.8 else None),
+                     order=order, limit=r.randint(1, 3))
+        if r.random() < 0.4:
+            off = r.randint(1, 2)
+            q.sql += f" OFFSET {off}"
+            q.m["offset"] = off
+        return q, [t0]
+
+    def s2_topn_offset(self):
+        r = self.rng
+        t0 = self._fact(r.randint(4, 10))
+        a0 = self.fresh("x")
+        sc = Scope(self.cols(t0, a0))
+        proj = [sc.ref(0, 0), sc.ref(0, 1), sc.ref(0, 2)]
+        w = self.cmp(sc.ref(0, 2), r.choice([">=", "<>", "<"]), Lit("int", r.randint(0, 2))) if r.random() < 0.5 else None
+        q = self.sel(f"t0 AS {a0}", {"k": "table", "name": "t0"}, proj, where=w, order=[(0, r.randint(0, 1)), (1, r.randint(0, 1)), (2, 0)], limit=r.randint(0, 4))
+        if r.random() < 0.7:
+            off = r.randint(1, 5)
+            q.sql += f" OFFSET {off}"
+            q.m["offset"] = off
+        return q, [t0]
+
+    # --- C23: correlated [NOT] EXISTS that cannot become a plain equi semi/anti join, duplicate outer rows --------
+    def _outer_inner(self):
+        r = self.rng
+        base = [[r.randint(0, 3), r.randint(0, 2)] for _ in range(r.randint(1, 3))]
+        rows = base + [list(r.choice(base)) for _ in range(r.randint(1, 3))]          # duplicate outer rows
+        r.shuffle(rows)
+        t0 = self.tab("t0", [("a0", "int"), ("b0", "int")], rows, ("a0", "b0"))
+        t1 = self.tab("t1", [("a1", "int"), ("b1", "int")], [[r.randint(0, 3), r.randint(0, 2)] for _ in range(r.randint(0, 4))], ("a1", "b1"))
+        return t0, t1
+
+    def _exists(self, sc, t1, corr_ops, neg):
+        r = self.rng
+        a1 = self.fresh("x")
+        sub_sc = Scope(self.cols(t1, a1), sc)
+        op = r.choice(corr_ops)
+        corr = self.cmp(sub_sc.ref(0, 0), op, sub_sc.ref(1, 0))
+        if r.random() < 0.5:
+            extra = self.cmp(sub_sc.ref(0, 1), r.choice(["=", "<=", "<>"]), sub_sc.ref(1, 1) if r.random() < 0.5 else Lit("int", r.randint(0, 2)))
+            corr = E(f"({corr.sql} AND {extra.sql})", {"k": "and", "a": corr.m, "b": extra.m}, "bool")
+        sub = self.sel(f"t1 AS {a1}", {"k": "table", "name": "t1"}, [sub_sc.ref(0, 1)], where=corr)
+        return E(f"({'NOT ' if neg else ''}EXISTS ({sub.sql}))", {"k": "exists", "q": sub.m, "neg": neg}, "bool")
+
+    def s2_corr_exists_noneq(self):
+        r = self.rng
+        t0, t1 = self._outer_inner()
+        a0 = self.fresh("x")
+        sc = Scope(self.cols(t0, a0))
+        w = self._exists(sc, t1, ["<", ">", "<>", "<=", ">="], r.randint(0, 1))
+        return self.sel(f"t0 AS {a0}", {"k": "table", "name": "t0"}, [sc.ref(0, 0), sc.ref(0, 1)] if r.random() < 0.6 else [sc.ref(0, 0)], where=w), [t0, t1]
+
+    def s2_corr_exists_or(self):
+        r = self.rng
+        t0, t1 = self._outer_inner()
+        a0 = self.fresh("x")
+        sc = Scope(self.cols(t0, a0))
+        ex = self._exists(sc, t1, ["=", "=", "<", "<>"], r.randint(0, 1))
+        other = self.cmp(sc.ref(0, 1), r.choice(["=", ">", "<>"]), Lit("int", r.randint(0, 2)))
+        w = E(f"({ex.sql} OR {other.sql})", {"k": "or", "a": ex.m, "b": other.m}, "bool") if r.random() < 0.7 else \
+            E(f"({other.sql} AND {ex.sql})", {"k": "and", "a": other.m, "b": ex.m}, "bool")
+        return self.sel(f"t0 AS {a0}", {"k": "table", "name": "t0"}, [sc.ref(0, 0), sc.ref(0, 1)], where=w), [t0, t1]
+
+    # --- C28: a CTE referenced from the main query AND from a subquery expression -----------------------------------
+    def _cte(self, t0):
+        a = self.fresh("x")
+        sc = Scope(self.cols(t0, a))
+        r = self.rng
+        w = self.cmp(sc.ref(0, 1), r.choice([">=", "<>", "<"]), Lit("int", r.randint(0, 2))) if r.random() < 0.5 else None
+        q = self.sel(f"t0 AS {a}", {"k": "table", "name": "t0"}, [sc.ref(0, 0), sc.ref(0, 1)], where=w)
+        name = self.fresh("c")
+        return name, q
+
+    def _cte_ref(self, name, q, outer=None):
+        al = self.fresh("x")
+        return al, Scope([Col(al, n, t) for (n, t) in q.cols], outer)
+
+    def s2_cte_multi(self):
+        r = self.rng
+        t0 = self.tab("t0", [("a0", "int"), ("b0", "int")], [[r.randint(0, 4), r.randint(0, 3)] for _ in range(r.randint(1, 5))], ("a0", "b0"))
+        t1 = self.tab("t1", [("k1", "int")], [[r.randint(0, 4)] for _ in range(r.randint(0, 4))], ("k1",))
+        name, cq = self._cte(t0)
+        al, sc = self._cte_ref(name, cq)
+        # reference 2: scalar aggregate over the CTE; reference 3 (sometimes): IN over t1 / over the CTE again
+        al2, sc2 = self._cte_ref(name, cq, sc)
+        ag = self.agg_e(r.choice(["max", "min", "sum", "count"]), sc2.ref(0, 1))
+        g2 = self.gref([], [ag])
+        sub = self.sel(f"{name} AS {al2}", {"k": "cte", "name": name}, [g2.ref(0, 0)], group=([], [ag], None))
+        sube = E(f"({sub.sql})", {"k": "scalar", "q": sub.m}, "int")
+        conj = [self.cmp(sc.ref(0, 1), r.choice(["<", "<=", "=", "<>"]), sube)]
+        if r.random() < 0.7:
+            a1 = self.fresh("x")
+            s1 = Scope(self.cols(t1, a1), sc)
+            insub = self.sel(f"t1 AS {a1}", {"k": "table", "name": "t1"}, [s1.ref(0, 0)])
+            conj.append(E(f"({sc.ref(0, 0).sql} IN ({insub.sql}))", {"k": "insub", "a": sc.ref(0, 0).m, "q": insub.m, "neg": 0}, "bool"))
+            r.shuffle(conj)
+        w = conj[0]
+        for c in conj[1:]:
+            w = E(f"({w.sql} AND {c.sql})", {"k": "and", "a": w.m, "b": c.m}, "bool")
+        body = self.sel(f"{name} AS {al}", {"k": "cte", "name": name}, [sc.ref(0, 0), sc.ref(0, 1)], where=w)
+        sql = f"WITH {name} AS ({cq.sql}) {body.sql}"
+        m = {"k": "with", "ctes": [{"name": name, "q": cq.m}], "body": body.m}
+        return Q(sql, m, body.cols), [t0, t1]
+
+    def s2_cte_semi(self):
+        r = self.rng
+        t0 = self.tab("t0", [("a0", "int"), ("b0", "int")], [[r.randint(0, 4), r.randint(0, 3)] for _ in range(r.randint(1, 5))], ("a0", "b0"))
+        t1 = self.tab("t1", [("k1", "int")], [[r.randint(0, 4)] for _ in range(r.randint(0, 4))], ("k1",))
+        name, cq = self._cte(t0)
+        al, sc = self._cte_ref(name, cq)
+        al2 = self.fresh("x")
+        cols2 = [Col(al2, n, t) for (n, t) in cq.cols]
+        both = Scope(sc.cols + cols2)
+        on = self.cmp(both.ref(0, 0), r.choice(["=", "<=", "<>"]), both.ref(0, 2))
+        a1 = self.fresh("x")
+        s1 = Scope(self.cols(t1, a1), both)
+        insub = self.sel(f"t1 AS {a1}", {"k": "table", "name": "t1"}, [s1.ref(0, 0)])
+        neg = 1 if r.random() < 0.25 else 0
+        w = E(f"({both.ref(0, 0).sql} {'NOT ' if neg else ''}IN ({insub.sql}))", {"k": "insub", "a": both.ref(0, 0).m, "q": insub.m, "neg": neg}, "bool")
+        fsql = f"{name} AS {al} INNER JOIN {name} AS {al2} ON {on.sql}"
+        fm = {"k": "join", "kind": "inner", "l": {"k": "cte", "name": name}, "r": {"k": "cte", "name": name}, "on": on.m, "ln": 2, "rn": 2}
+        body = self.sel(fsql, fm, [both.ref(0, 0), both.ref(0, 1), both.ref(0, 3)], where=w)
+        sql = f"WITH {name} AS ({cq.sql}) {body.sql}"
+        return Q(sql, {"k": "with", "ctes": [{"name": name, "q": cq.m}], "body": body.m}, body.cols), [t0, t1]
+
+    # --- C24: chained set operations with mixed quantifiers (non-NULL data: the engine is right there today) ----------
+    def s2_setop_chain(self):
+        r = self.rng
+        tabs = [self.tab(f"t{i}", [(f"a{i}", "int")], [[r.randint(0, 3)] for _ in range(r.randint(0, 4))], (f"a{i}",)) for i in range(3)]
+        def branch(t, i):
+            a = self.fresh("x")
+            sc = Scope(self.cols(t, a))
+            w = self.cmp(sc.ref(0, 0), r.choice([">=", "<>", "<="]), Lit("int", r.randint(0, 3))) if r.random() < 0.3 else None
+            return self.sel(f"{t.name} AS {a}", {"k": "table", "name": t.name}, [sc.ref(0, 0)], where=w)
+        n = r.choice([3, 3, 4])
+        qs = [branch(r.choice(tabs), i) for i in range(n)]
+        ops = [(r.choice(["union", "union", "union", "intersect", "except"]), r.randint(0, 1)) for _ in range(n - 1)]
+        # non-NULL data keeps INTERSECT/EXCEPT inside what the engine gets right only for the non-ALL forms
+        ops = [(op, al if op == "union" else 0) for (op, al) in ops]
+        kw = lambda op, al: {"union": "UNION", "intersect": "INTERSECT", "except": "EXCEPT"}[op] + (" ALL" if al else "")
+        paren = r.random() < 0.3 and n >= 3
+        if paren:
+            # a OP1 (b OP2 c) [OP3 d]
+            inner_m = {"k": "setop", "op": ops[1][0], "all": ops[1][1], "l": qs[1].m, "r": qs[2].m, "order": [], "limit": -1, "offset": 0}
+            sql = f"{qs[0].sql} {kw(*ops[0])} ({qs[1].sql} {kw(*ops[1])} {qs[2].sql})"
+            m = {"k": "setop", "op": ops[0][0], "all": ops[0][1], "l": qs[0].m, "r": inner_m, "order": [], "limit": -1, "offset": 0}
+            rest = list(zip(qs[3:], ops[2:]))
+        else:
+            sql, m = qs[0].sql, qs[0].m
+            rest = list(zip(qs[1:], ops))
+        for (q, (op, al)) in rest:
+            # INTERSECT binds tighter than UNION/EXCEPT in SQL: parenthesise the accumulated left side explicitly
+            sql = f"({sql}) {kw(op, al)} {q.sql}" if ("UNION" in sql or "EXCEPT" in sql or "INTERSECT" in sql) and not sql.startswith("(") else f"{sql} {kw(op, al)} {q.sql}"
+            m = {"k": "setop", "op": op, "all": al, "l": m, "r": q.m, "order": [], "limit": -1, "offset": 0}
+        name = qs[0].cols[0][0]
+        if r.random() < 0.5:
+            sql += f" ORDER BY {name}"
+            m["order"] = [{"e": {"k": "col", "d": 0, "i": 1}, "desc": 0, "nf": 0}]
+            if r.random() < 0.5:
+                lim = r.randint(1, 4)
+                sql += f" LIMIT {lim}"
+                m["limit"] = lim
+        return Q(sql, m, [(name, "int")]), tabs
+
+    # --- C04/C21: integer group keys spanning more than the dense-path limit --------------------------------------------
+    def s2_agg_wide(self):
+        r = self.rng
+        wide = r.choice([1048576, 1100001, 3000010, 5000000, 70000000])
+        keys = [0, 1, 2, wide, wide - 1, wide // 2]
+        rows = [[r.choice(keys), r.choice([0, 1, 2, 3, None]), r.randint(0, 2)] for _ in range(r.randint(2, 9))]
+        if r.random() < 0.8:
+            rows.append([wide, r.randint(0, 3), 1])
+        t0 = self.tab("t0", [("g0", "int"), ("v0", "int"), ("h0", "int")], rows, ("g0", "h0"))
+        a0 = self.fresh("x")
+        sc = Scope(self.cols(t0, a0))
+        keysx = [sc.ref(0, 0)]
+        aggs = [self.agg_e("count*", None), self.agg_e(r.choice(["sum", "min", "max", "count"]), sc.ref(0, 1))]
+        if r.random() < 0.4:
+            aggs.append(E(f"AVG({sc.ref(0, 2).sql})", {"f": "avg", "a": sc.ref(0, 2).m, "distinct": 0}, "avg_int"))
+        g = self.gref(keysx, aggs)
+        return self.sel(f"t0 AS {a0}", {"k": "table", "name": "t0"}, [g.ref(0, i) for i in range(1 + len(aggs))], group=(keysx, aggs, None)), [t0]
